@@ -544,6 +544,39 @@ def m_collect_result(ex, callee, args, ret_ty, frame):
     return mk_result(ex, rt, ok=VSeq("?", len(out), out, ex.new_vid()))
 
 
+def m_iter_find_map(ex, callee, args, ret_ty, frame):
+    """Iterator::find_map with a closure whose MIR is in the dump: the first Some the closure returns"""
+    rt = norm_ty(ret_ty) if ret_ty else "Option"
+    while True:
+        nx = m_iter_next(ex, callee, [args[0]], "Option<?>", frame)
+        if nx is NOT_HANDLED:
+            return NOT_HANDLED
+        if adt_variant(ex, nx, "find_map next") == 0:
+            return mk_option(ex, rt)
+        r = ex.call_closure(args[1], [ex.adt_fields(nx, 1)[0]])
+        if r is None or not isinstance(r, VAdt):
+            raise Unsupported("find_map over a closure whose MIR is not in the dump")
+        if adt_variant(ex, r, "find_map closure") == 1:
+            return r
+
+
+def m_iter_flat_map(ex, callee, args, ret_ty, frame):
+    """Iterator::flat_map where the closure returns an Option or a Result (both iterate over their
+    Some / Ok value and over nothing otherwise), or a sequence: eager"""
+    out = []
+    for x in drain(ex, args[0], frame):
+        r = ex.call_closure(args[1], [x])
+        if r is None:
+            raise Unsupported("flat_map over a closure whose MIR is not in the dump")
+        if isinstance(r, VAdt) and base_ty(r.ty) in ("Option", "Result"):
+            keep = 1 if base_ty(r.ty) == "Option" else 0
+            if adt_variant(ex, r, "flat_map item") == keep:
+                out.append(ex.adt_fields(r, keep)[0])
+        else:
+            out += drain(ex, r, frame)
+    return VIter(VSeq("?", len(out), out, ex.new_vid()), 0, None, "owned")
+
+
 def m_iter_unzip(ex, callee, args, ret_ty, frame):
     """Iterator::unzip over pairs: two vectors with the first / second components in order"""
     items = drain(ex, args[0], frame)
@@ -856,6 +889,8 @@ BUILTIN = [
     (r"^<.+ as Iterator>::collect::<Result<Vec<.*>, .*>>$", m_collect_result),
     (r"^<.+ as Iterator>::collect::<Vec<.*>>$", m_collect_vec),
     (r"^<.+ as Iterator>::unzip::<", m_iter_unzip),
+    (r"^<.+ as Iterator>::find_map::<", m_iter_find_map),
+    (r"^<.+ as Iterator>::flat_map::<", m_iter_flat_map),
     (r"^<.+ as Iterator>::enumerate$", m_iter_enumerate),
     (r"^<.+ as Iterator>::(all|any)::<", m_iter_all_any),
     (r"^<.+ as Iterator>::flatten$", m_iter_flatten),
@@ -886,7 +921,7 @@ BUILTIN = [
     (r"^RefCell(::)?(<.*>)?::new$", m_refcell_new),
     (r"^RefCell(::)?(<.*>)?::(borrow|borrow_mut)$", m_refcell_borrow),
     (r"^<(Ref|RefMut)<.*> as (Deref|DerefMut)>::(deref|deref_mut)$", m_guard_deref),
-    (r"^HashMap(::)?(<.*>)?::new$", m_map_new),
+    (r"^HashMap(::)?(<.*>)?::(new|with_capacity)$", m_map_new),
     (r"^HashMap(::)?(<.*>)?::insert$", m_map_insert),
     (r"^(format|Arguments(<.*>)?::new|Argument(<.*>)?::new_\w+)", m_opaque),
     (r"^fmt::format$|::fmt::format$|^std::fmt::format$", m_opaque),
